@@ -477,7 +477,7 @@ def run(pid, tier, seed, sdir, replay, t0):
                 r.get("distinct", 0), r.get("generated", 0), r["wall"]))
     tlaps_n = 0
     if not replay:
-        for mod in P.get("tlaps", []):
+        for mod in P.get("tlaps", []) + (P.get("tlaps_thorough", []) if tier == "thorough" else []):
             # machine-checked proofs (TLAPS): unbounded counterparts of bounded model-checking results
             wd = os.path.join(sdir, "tlaps-" + mod)
             shutil.copytree(vf.SPEC, wd)
@@ -656,7 +656,7 @@ REGISTRY = {
                        dict(mode="c05g", conn=True, trace_module="Trace_Stream", trace_cfg="Trace_Stream.cfg", props=["C05"], drift_props=["D05"])],
                 mc=[MC_CONN, MC_CONN_SPEC], nontrivial=has_tx, assumptions=STREAM_ASSUME + [
                     "the data-race clause is decided by the Go race detector on the replayed schedules (the Go memory model is not modelled in TLA+)"],
-                gen=GEN_CONN,
+                gen=GEN_CONN, tlaps_thorough=["MC_Conn_proofs"],
                 rule="scenario = history x stop cause x stop point x reader state (lock-step: waiting for the network / burst: holding an "
                      "event) x handler fast / blocked-at-stop, followed by a clean attempt; run under go test -race; distinct by content. "
                      "Part 2: behaviours of MC_Conn drawn by TLC (Gen_Conn, simulation under a drawn environment plan: 150 quick / 2500 "
